@@ -2,29 +2,6 @@
 // An item closure runs sequentially between awaits; at every await the rest of the world may move. What the
 // closure itself does, in order, is recorded in `trace` (a ghost sequence local to the item: exact).
 
-pub ghost enum Ev {
-    UserStart,            // the user's closure was called for this item (its future was created)
-    UserEnd,              // the user's future resolved (try variants: with Ok)
-    UserFail,             // try variants: the user's future resolved with Err / Break
-    DoneSend(int),        // the item's id was sent on the done channel
-    ErrSend,              // the item's error was sent on the result channel
-    DoneTxDrop,           // the scheduler's done sender was released
-    Decrement,            // fns_remaining was decremented
-}
-
-pub uninterp spec fn trace(w: World) -> Seq<Ev>;
-/// this item holds a "ticket": it was handed out and has not decremented fns_remaining yet
-pub uninterp spec fn ticket(w: World) -> bool;
-/// the scheduler's done sender has been taken out of its cell (monotone: it is never put back)
-pub uninterp spec fn done_tx_gone(w: World) -> bool;
-
-/// facts that survive every suspension point and every effect that is not about them
-pub open spec fn keeps(w0: World, w1: World) -> bool {
-    &&& ticket(w1) == ticket(w0)
-    &&& (done_tx_gone(w0) ==> done_tx_gone(w1))
-    &&& w1.n == w0.n
-}
-
 /// a future in the model: `completes(w0, w1, out)` relates the world before/after awaiting it and its output
 pub trait VxFuture {
     type Out;
